@@ -32,6 +32,7 @@ Clauses(r) ==
       [] r.k = "diaginv"   -> << <<"inverse-diagonal", r.out = r.want>> >>
       [] r.k = "copy"      -> << <<"copy-preserves-storage", CopyOK(r)>> >>
       [] r.k = "gersh"     -> << <<"gershgorin=definition", r.out = GershgorinDef(r.A)>> >>
+      [] r.k = "gershs"    -> << <<"gershgorin-scaled=definition", r.out = GershgorinScaledDef(r.A)>> >>
       [] r.k = "specobs"   -> << <<"gershgorin>=rho", r.gersh >= r.rho /\ r.gershS >= r.rhoS>>,
                                  <<"power<=sigma", r.pow <= r.sig + 16 /\ r.powS <= r.sigS + 16>> >>
       [] OTHER             -> << <<"unknown-record", FALSE>> >>
